@@ -224,7 +224,7 @@ def check_errors(lay, stats=None):
 @st.composite
 def cases(draw, opts):
     lay = draw(multifile.layouts(opts))
-    style = draw(st.sampled_from(['together', 'separate']))
+    style = draw(st.sampled_from(['together', 'together', 'separate']))
     order = draw(st.permutations(list(range(lay.nfiles))))
     cwd_mode = draw(st.sampled_from(['keep', 'root', 'elsewhere']))
     rw = RefWire(lay.schema)
@@ -250,12 +250,12 @@ def make_body(cpp):
 
 
 def gen_opts():
-    return gen.GenOpts(min_decls=5, max_decls=10, const_exprs=True, const_ref_bias=2, big_sizes=False, allow_unset=False,
+    return gen.GenOpts(min_decls=6, max_decls=12, const_exprs=True, const_ref_bias=2, big_sizes=False, allow_unset=False,
                        aligned_greedy=False, avoid=common.avoid_set(ID))
 
 
 def worker(widx, seed, tier, stats):
-    n = {'quick': 40, 'thorough': 1000}[tier]
+    n = {'quick': 80, 'thorough': 1000}[tier]
     runner.run_given(cases(gen_opts()), make_body(False), seed, n, stats)
     if not stats.violations:
         runner.run_given(cases(gen_opts()), make_body(True), seed + 1, {'quick': 1, 'thorough': 20}[tier], stats,
